@@ -24,6 +24,17 @@ than `img.length < 2^63`:
    -> `loadSegmentsLoop_inside`/`loadSegs_inside` (induction over the segment loop) ->
    `SegmentSpec_of_segFinal` (membership via `member_eq_spec`).  Nothing of the C02 statement is
    left unproved; non-vacuity: a concrete 228-byte ELF32 image satisfies WellFormedImage (`decide`).
+ * composition with the writer (Props/Compose.lean, Lemmas/RoundTrip.lean): `Compose.saved_wellFormed` — the
+   bytes of a successful `save` satisfy WellFormedImage (magic/class/data bytes: setters write behind byte
+   16; tables and ranges inside the file: C04.file_covers / layout_disjoint, loose-section pass for empty
+   sections, layoutSegment_flat for segment ranges; length < 2^63: positioned-writes form of the stream;
+   name table terminated: decidable hypothesis on the input object) — and `Compose.reload_reports_saved`
+   (+ `_noseg`, `_flat` with hypotheses on the input object only): `load` of the saved bytes, eager and lazy,
+   succeeds and the loaded object shows header, per-section (index, name offset, type, flags, address, offset,
+   size, link, info, alignment, entry size, name, data) and per-segment (index, type, flags, offset, vaddr,
+   paddr, filesz, memsz, align, members = Spec.inSegment on the saved fields, data) values of the object
+   `save` left (`RoundTrip.Reloaded`); `RoundTrip.load_state` adds to `load_eq_spec` the state facts
+   "every section has its address set" and "resident data = file range ++ NUL".
  * not covered by proof (correspondence only): that Model/IStream.lean is libstdc++ and that
    Model/Load.lean is ELFIO's loader (differential check below); images with an address
    translation table (C15).
@@ -45,7 +56,13 @@ THEOREMS = ["ElfioVerif.C02.layouts_eq_spec", "ElfioVerif.C02.shdr_fields_eq_spe
             "ElfioVerif.loadNames_inside", "ElfioVerif.loadSegmentsLoop_inside", "ElfioVerif.loadBody_inside",
             "ElfioVerif.C02.secLoad_wf", "ElfioVerif.C02.segLoad_wf",
             "ElfioVerif.C02.SectionSpec_of_SecSt", "ElfioVerif.C02.SegmentSpec_of_segFinal",
-            "ElfioVerif.C02.load_eq_spec", "ElfioVerif.C02.name_eq_cstr"]
+            "ElfioVerif.C02.load_eq_spec", "ElfioVerif.C02.name_eq_cstr",
+            "ElfioVerif.RoundTrip.load_state",
+            "ElfioVerif.RoundTrip.wellFormed_of_holds",
+            "ElfioVerif.RoundTrip.reload_of_holds",
+            "ElfioVerif.Compose.saved_wellFormed",
+            "ElfioVerif.Compose.reload_reports_saved"]
+EXTRA_IMPORTS = ["ElfioVerif.Props.Compose"]
 SITES = ["conv", "is_sect_in_seg", "load_s", "sec32_load", "sec64_load", "seg32_load", "seg64_load"]
 RULE = ("well-formed images from the independent encoder tools/elfspec.py (random models: 1-9 sections, 0-4 "
         "segments, full-width field values, arbitrary table placement/order/gaps, overlapping segments, entry "
